@@ -359,10 +359,11 @@ NAMES = ['NeoHooke(mu,bulk)', 'NeoHooke(mu)', 'Volumetric(bulk)', 'NeoHookeCompr
          'jax.third_order_deformation', 'jax.blatz_ko', 'jax.van_der_waals', 'jax.van_der_waals[beta=0]', 'jax.storakers', 'jax.extended_tube',
          'jax.extended_tube[delta=0]', 'jax.miehe_goektepe_lulei', 'tt.finite_strain_viscoelastic', 'tt.ogden_roxburgh(neo_hooke)',
          'tt.lagrange.morph', 'tt.lagrange.morph_representative_directions', 'tt.hyperelastic.morph_representative_directions',
-         'jax.lagrange.morph', 'jax.lagrange.morph_representative_directions', 'tt.total_lagrange(neo-hooke S)',
+         'jax.lagrange.morph', 'jax.lagrange.morph_representative_directions', 'tt.isochoric_volumetric_split(neo)',
+         'jax.isochoric_volumetric_split(neo)', 'tt.microsphere.affine_stretch(langevin)', 'tt.microsphere.affine_tube(linear)', 'tt.total_lagrange(neo-hooke S)',
          'tt.updated_lagrange(neo-hooke sigma)', 'jax.total_lagrange(neo-hooke S)', 'jax.updated_lagrange(neo-hooke sigma)']
 ENERGY = [n for n in NAMES if n.startswith(("NeoHooke", "Volumetric", "LinearElasticLarge")) or
-          (n.startswith(("tt.", "jax.")) and not any(k in n for k in ("alexander", "viscoelastic", "ogden_roxburgh", "morph", "lagrange")))]
+          (n.startswith(("tt.", "jax.")) and not any(k in n for k in ("alexander", "viscoelastic", "ogden_roxburgh", "morph", "lagrange", "split", "microsphere")))]
 
 
 def cases(tier, seed):
